@@ -49,7 +49,7 @@ def main():
         "setup_cmd": "sh tools/setup.sh",
         "hooks": {
             "guard": "cargo feature `verif` of routee-compass-core (default off)",
-            "enable": "the harness crate /verif/harness depends on /repo/rust/routee-compass-core by path with features = [\"verif\"] once hooks exist; until then no hook is compiled in",
+            "enable": "the harness crate /verif/harness depends on /repo/rust/routee-compass-core by path with features = [\"verif\"]; every check rebuilds it with `cargo build --release --offline` from /repo's working tree",
             "baseline_off_cmd": "cd /repo/rust && cargo test --workspace --no-fail-fast --offline",
             "source_commits": hooks.get("source_commits", []),
             "add_only": True,
